@@ -1,6 +1,7 @@
 import InfluxQL.Lemmas.Neutral
 import InfluxQL.Lemmas.Query
 import InfluxQL.Lemmas.PMonad
+import InfluxQL.Lemmas.RegexGap
 import InfluxQL.Model.ParserCore
 /-!
 # C16 — statement separation, whitespace and comments do not change meaning
@@ -19,8 +20,9 @@ to the right (`NotWsHead post`). NUL-freeness is *not* needed for the token-sequ
 to read `sigTokens` as "all tokens of the text", and inside an inserted comment.
 
 Parser level: `ParseQuery` is modelled generically over an abstract statement parser that
-consumes significant tokens; the expression parser's regex look-ahead is the one place where a
-comment is *not* equivalent to whitespace (kernel-checked counterexamples at the end).
+consumes significant tokens; the expression parser's regex look-ahead — the one place where a
+comment used to be *not* equivalent to whitespace (finding `comment-before-regex-lookahead`,
+fixed) — skips comments like whitespace (`parseRegex_gap_neutral` and kernel-checked examples).
 -/
 namespace InfluxQL.C16
 open InfluxQL Gen
@@ -289,14 +291,14 @@ theorem parseQuery_missing_semi {ε σ : Type} (ps : List Tok → Except ε (σ 
   simp only [List.cons_append, absParseQueryLoop, h1, h2, if_false, Bool.not_true, Bool.false_eq_true,
     hps', ht.1, ht.2, Bool.not_false, if_true]
 
-/-! ## The regex look-ahead: where a comment is *not* whitespace (known finding)
+/-! ## The regex look-ahead (finding `comment-before-regex-lookahead`, fixed)
 
-`parseRegex` decides by the next *rune* whether a regular expression follows. It skips one WS
-token, then peeks: a `/` starts `ScanRegex` — also when that `/` opens a `/* … */` comment. The
-comment is then read as the regex `*…*` up to its closing `/`. In the implementation
-`regexp.Compile("*c*")` fails at once (`missing argument to repetition operator`); in the model,
-where compilation is an oracle call assumed to succeed, the parse fails at the next token. Either
-way an expression that is accepted with plain whitespace is rejected with a comment in it. -/
+`parseRegex` decides by the next *rune* whether a regular expression follows. Before the fix it
+skipped one WS token and peeked: a `/` started `ScanRegex` — also when that `/` opened a `/* … */`
+comment — and a `-` (of `-- …`) meant "no regex here". Now it skips the WS token, then every
+comment and the WS token after it (`skipCommentsLoop`), and only then peeks. The concrete texts
+that used to be rejected now parse to the same tree as their whitespace-only versions
+(kernel-checked); the general statement is `parseRegex_gap_neutral` below. -/
 
 def parsesTo (text printed : List Char) : Prop :=
   match parseExprText text [] [] with
@@ -311,46 +313,151 @@ def isRejected (text : List Char) : Bool :=
   | .error (.err _) => true
   | _ => false
 
-/-- After the `,` of a call: `f(a,  b)` and `f(a /*c*/, b)` parse to the same call, `f(a, /*c*/ b)`
-is rejected. -/
+/-- After the `,` of a call: `f(a,  b)`, `f(a /*c*/, b)`, `f(a, /*c*/ b)`, `f(a,/*c*/b)` and
+`f(a, --c⏎ b)` all parse to the same call. -/
 theorem comment_before_regex_lookahead_call_arg :
     parsesTo ['f', '(', 'a', ',', ' ', ' ', 'b', ')'] ['f', '(', 'a', ',', ' ', 'b', ')'] ∧
     parsesTo ['f', '(', 'a', ' ', '/', '*', 'c', '*', '/', ',', ' ', 'b', ')'] ['f', '(', 'a', ',', ' ', 'b', ')'] ∧
-    isRejected ['f', '(', 'a', ',', ' ', '/', '*', 'c', '*', '/', ' ', 'b', ')'] = true := by
+    parsesTo ['f', '(', 'a', ',', ' ', '/', '*', 'c', '*', '/', ' ', 'b', ')'] ['f', '(', 'a', ',', ' ', 'b', ')'] ∧
+    parsesTo ['f', '(', 'a', ',', '/', '*', 'c', '*', '/', 'b', ')'] ['f', '(', 'a', ',', ' ', 'b', ')'] ∧
+    parsesTo ['f', '(', 'a', ',', ' ', '-', '-', 'c', '\n', ' ', 'b', ')'] ['f', '(', 'a', ',', ' ', 'b', ')'] := by
   decide +kernel
 
-/-- After the `(` of a call: `f( a)` parses, `f( /*c*/ a)` is rejected. -/
+/-- After the `(` of a call: `f( a)`, `f( /*c*/ a)` and `f(/*c*//*d*/ a)` parse to `f(a)`. -/
 theorem comment_before_regex_lookahead_call_open :
     parsesTo ['f', '(', ' ', 'a', ')'] ['f', '(', 'a', ')'] ∧
-    isRejected ['f', '(', ' ', '/', '*', 'c', '*', '/', ' ', 'a', ')'] = true := by
+    parsesTo ['f', '(', ' ', '/', '*', 'c', '*', '/', ' ', 'a', ')'] ['f', '(', 'a', ')'] ∧
+    parsesTo ['f', '(', '/', '*', 'c', '*', '/', '/', '*', 'd', '*', '/', ' ', 'a', ')'] ['f', '(', 'a', ')'] := by
   decide +kernel
 
-/-- After `=~`: `a =~  /x/` parses, `a =~ /*c*/ /x/` is rejected. -/
+/-- After `=~`: `a =~  /x/`, `a =~ /*c*/ /x/` and `a =~/*c*//x/` parse to `a =~ /x/`. -/
 theorem comment_before_regex_lookahead_regex_op :
     parsesTo ['a', ' ', '=', '~', ' ', ' ', '/', 'x', '/'] ['a', ' ', '=', '~', ' ', '/', 'x', '/'] ∧
-    isRejected ['a', ' ', '=', '~', ' ', '/', '*', 'c', '*', '/', ' ', '/', 'x', '/'] = true := by
+    parsesTo ['a', ' ', '=', '~', ' ', '/', '*', 'c', '*', '/', ' ', '/', 'x', '/'] ['a', ' ', '=', '~', ' ', '/', 'x', '/'] ∧
+    parsesTo ['a', ' ', '=', '~', '/', '*', 'c', '*', '/', '/', 'x', '/'] ['a', ' ', '=', '~', ' ', '/', 'x', '/'] := by
   decide +kernel
 
-/-- Where a regular expression is *required* (after `=~`, `!~`) or is the intended call argument,
-a `-- …` comment in front of it breaks the parse as well: the look-ahead sees `-`, reports "no
-regex here", and the `/` is then scanned as the division operator. -/
+/-- A `-- …` comment in front of a regular expression no longer hides it: after `=~` and as a
+call argument, `--c⏎ /x/` is read like ` /x/`. -/
 theorem line_comment_before_regex_lookahead :
     parsesTo ['a', ' ', '=', '~', ' ', '\n', ' ', '/', 'x', '/'] ['a', ' ', '=', '~', ' ', '/', 'x', '/'] ∧
-    isRejected ['a', ' ', '=', '~', ' ', '-', '-', 'c', '\n', ' ', '/', 'x', '/'] = true ∧
+    parsesTo ['a', ' ', '=', '~', ' ', '-', '-', 'c', '\n', ' ', '/', 'x', '/'] ['a', ' ', '=', '~', ' ', '/', 'x', '/'] ∧
     parsesTo ['f', '(', 'a', ',', ' ', '/', 'x', '/', ')'] ['f', '(', 'a', ',', ' ', '/', 'x', '/', ')'] ∧
-    isRejected ['f', '(', 'a', ',', ' ', '-', '-', 'c', '\n', ' ', '/', 'x', '/', ')'] = true := by
+    parsesTo ['f', '(', 'a', ',', ' ', '-', '-', 'c', '\n', ' ', '/', 'x', '/', ')'] ['f', '(', 'a', ',', ' ', '/', 'x', '/', ')'] := by
   decide +kernel
 
-/-- The two texts of the first counterexample nevertheless have the same significant tokens
-(`comment_insert_tokens` applies): the defect is in the parser's rune look-ahead, not the lexer. -/
+/-- What is still rejected, as it should be: an unterminated `/*` at a look-ahead point (the
+ILLEGAL token is left to the caller), a `--` comment that swallows the rest of the input, and a
+comment in front of something that is not a regular expression where one is required. -/
+theorem comment_at_regex_lookahead_still_rejected :
+    isRejected ['f', '(', 'a', ',', ' ', '/', '*', 'c'] = true ∧
+    isRejected ['a', ' ', '=', '~', ' ', '/', '*'] = true ∧
+    isRejected ['a', ' ', '=', '~', ' ', '-', '-', ' ', '/', 'x', '/'] = true ∧
+    isRejected ['a', ' ', '=', '~', ' ', '/', '*', 'c', '*', '/', ' ', 'b'] = true := by
+  decide +kernel
+
+/-- The texts of the first statement have the same significant tokens (`comment_insert_tokens`
+applies): lexer-level neutrality, of which the parser-level statement above is now the image. -/
 theorem comment_before_regex_lookahead_same_tokens :
     sigTokens (Cursor.ofRunes ['f', '(', 'a', ',', ' ', ' ', 'b', ')']) =
       sigTokens (Cursor.ofRunes ['f', '(', 'a', ',', ' ', '/', '*', 'c', '*', '/', ' ', 'b', ')']) := by
   decide +kernel
 
-/-- A `-- …` comment at the same place is harmless (`-` is not `/`). -/
-example : parsesTo ['f', '(', 'a', ',', ' ', '-', '-', 'c', '\n', ' ', 'b', ')'] ['f', '(', 'a', ',', ' ', 'b', ')'] := by
-  decide +kernel
+/-! ### The general statement: the look-ahead does not see the gap
+
+State level, because `parseRegex` is called in the middle of a parse: `s.r.chars` is the rune
+stream still ahead of the parser state `s`, `s.n` the number of pushed-back tokens (the
+look-ahead is only made with none, see the guard of `parseRegex`). A *gap* is `w g`: an optional
+whitespace run `w` followed by `g`, comments each followed by an optional whitespace run
+(`CommentRun`), every whitespace run maximal. `IsComment` is a terminated block comment or a
+line comment ending in a line feed — exactly what `comment_insert_tokens` inserts. -/
+
+/-- Two outcomes of a parsing function that agree up to positions: both succeed with the same
+result and states that agree up to positions (`SEq 0`: same push-back count, same parameters,
+same runes ahead, the tokens that can be re-delivered of the same kind and literal), or both fail
+with the same error up to the position it reports (`Fail.erase`). -/
+def SameUpToPos {α : Type} (x y : Except Fail (α × PState)) : Prop :=
+  match x, y with
+  | .ok (a1, t1), .ok (a2, t2) => a1 = a2 ∧ SEq 0 t1 t2
+  | .error e1, .error e2 => e1.erase = e2.erase
+  | _, _ => False
+
+theorem sameUpToPos_of_wpE {α : Type} {m1 m2 : P α} {s1 s2 : PState}
+    (h : wpE m1 m2 s1 s2 (fun a b t1 t2 => a = b ∧ SEq 0 t1 t2)) :
+    SameUpToPos (m1.run s1) (m2.run s2) := by
+  unfold wpE at h
+  unfold SameUpToPos
+  cases h1 : m1.run s1 with
+  | error e1 =>
+    cases h2 : m2.run s2 with
+    | error e2 => rw [h1, h2] at h; exact h
+    | ok q => rw [h1, h2] at h; exact h.elim
+  | ok q1 =>
+    obtain ⟨a1, t1⟩ := q1
+    cases h2 : m2.run s2 with
+    | error e2 => rw [h1, h2] at h; exact h.elim
+    | ok q2 => obtain ⟨a2, t2⟩ := q2; rw [h1, h2] at h; exact h
+
+/-- **C16 (look-ahead, exact).** In front of `w g post`, with nothing pushed back, `parseRegex`
+consumes exactly the gap `w g` — plus one `eof` rune (NUL) if `post` begins with one — and then
+behaves exactly (result, error, positions, final state) as `parseRegexSkip` started there:
+`parseRegexSkip` is the rest of `parseRegex`, the comment loop followed by the look at the next
+rune. In particular the loop's fuel never runs out on the way, and no comment of the gap is ever
+handed to `ScanRegex`. -/
+theorem parseRegex_skips_gap (s : PState) (hn : s.n = 0) (hgood : Good s) (w g post : List Char)
+    (hc : s.r.chars = w ++ (g ++ post)) (hw : WsOpt w) (hmax : NotWsHead (g ++ post))
+    (hg : CommentRun post g) :
+    ∃ s', s'.n = 0 ∧ s'.params = s.params ∧ s'.r.chars = dropEof post ∧
+      parseRegex.run s = parseRegexSkip.run s' := by
+  obtain ⟨s', hat, e⟩ := InfluxQL.parseRegex_skips_gap s hn hgood w g post hc hw hmax hg
+  exact ⟨s', hat.n0, hat.params, hat.chars, e⟩
+
+/-- **C16 (look-ahead, neutrality).** The outcome of `parseRegex` does not depend on the gap in
+front of it. Two parser states with nothing pushed back and the same parameters, one in front of
+`w1 g1 post`, the other in front of `w2 g2 post`: either both calls return the same result — the
+same regex literal, or both "no regex here" — and leave states that agree up to positions
+(`SEq 0`: same push-back count, same runes ahead, the tokens that can be re-delivered of the same
+kind and literal), or both fail with the same error up to the position it reports
+(`Fail.erase`). With `g1 = []` this is "a comment is treated the same as whitespace" at every
+look-ahead point of the parser: after `(` and `,` of a call, after `=~` / `!~`, and (statement
+level) after `,` in field, source and dimension lists, after FROM and GROUP BY. -/
+theorem parseRegex_gap_neutral (s1 s2 : PState) (hn1 : s1.n = 0) (hn2 : s2.n = 0) (hg1 : Good s1)
+    (hg2 : Good s2) (hpar : s1.params = s2.params) (hlow : s1.lowerTbl = s2.lowerTbl)
+    (w1 g1 w2 g2 post : List Char)
+    (hc1 : s1.r.chars = w1 ++ (g1 ++ post)) (hc2 : s2.r.chars = w2 ++ (g2 ++ post))
+    (hw1 : WsOpt w1) (hw2 : WsOpt w2) (hm1 : NotWsHead (g1 ++ post)) (hm2 : NotWsHead (g2 ++ post))
+    (hr1 : CommentRun post g1) (hr2 : CommentRun post g2) :
+    SameUpToPos (parseRegex.run s1) (parseRegex.run s2) :=
+  sameUpToPos_of_wpE (InfluxQL.parseRegex_gap_neutral s1 s2 hn1 hn2 hg1 hg2 hpar hlow w1 g1 w2 g2 post
+    hc1 hc2 hw1 hw2 hm1 hm2 hr1 hr2)
+
+/-- The shape of `comment_insert_tokens`: whitespace `w` against `wa comment wb`, where now the
+flanking whitespace may be empty (`f(a,/*c*/b)`), and `w` too. -/
+theorem parseRegex_comment_as_whitespace (s1 s2 : PState) (hn1 : s1.n = 0) (hn2 : s2.n = 0)
+    (hg1 : Good s1) (hg2 : Good s2) (hpar : s1.params = s2.params) (hlow : s1.lowerTbl = s2.lowerTbl)
+    (w wa cm wb post : List Char)
+    (hc1 : s1.r.chars = w ++ post) (hc2 : s2.r.chars = wa ++ (cm ++ (wb ++ post)))
+    (hw : WsOpt w) (hwa : WsOpt wa) (hwb : WsOpt wb) (hc : IsComment cm) (hpost : NotWsHead post) :
+    SameUpToPos (parseRegex.run s1) (parseRegex.run s2) := by
+  have hr2 : CommentRun post (cm ++ (wb ++ [])) := CommentRun.cons hc hwb (by simpa using hpost) CommentRun.nil
+  exact sameUpToPos_of_wpE (InfluxQL.parseRegex_gap_neutral s1 s2 hn1 hn2 hg1 hg2 hpar hlow w [] wa
+    (cm ++ (wb ++ [])) post (by simpa using hc1) (by simpa using hc2) hw hwa (by simpa using hpost)
+    (by rw [List.append_assoc]; exact notWsHead_comment cm _ hc) CommentRun.nil hr2)
+
+/-- Position erasure for everything `parseRegex` does behind the gap: two states that agree up
+to positions give outcomes that agree up to positions. -/
+theorem parseRegexSkip_depends_on_runes_only (s1 s2 : PState) (h : SEq 0 s1 s2) :
+    SameUpToPos (parseRegexSkip.run s1) (parseRegexSkip.run s2) :=
+  sameUpToPos_of_wpE (parseRegexSkip_erase h)
+
+-- non-vacuity: ` ` against `/*c*/ --d⏎⇥` in front of `b)`
+example : CommentRun ['b', ')'] (['/', '*', 'c', '*', '/'] ++ ([' '] ++ (['-', '-', 'd', '\n'] ++ (['\t'] ++ [])))) :=
+  CommentRun.cons (IsComment.block ['c'] (by decide)) (Or.inr ⟨by decide, by decide⟩)
+    (by intro c x h; simp at h; rw [← h.1]; decide)
+    (CommentRun.cons (IsComment.line ['d'] (by decide)) (Or.inr ⟨by decide, by decide⟩)
+      (by intro c x h; simp at h; rw [← h.1]; decide) CommentRun.nil)
+example : (PState.init [' ', 'b', ')'] [] []).r.chars = [' '] ++ ([] ++ ['b', ')', eofRune]) := by decide
+example : Good (PState.init [' ', 'b', ')'] [] []) := ⟨Nat.le_refl _, by decide⟩
 
 /-! ## Negative examples: where the side conditions bite (kernel-checked) -/
 
